@@ -21,11 +21,15 @@ type c15Inst struct {
 }
 
 func (l *Lab) c15Start(idp *IdP, signed bool, split bool) (*c15Inst, error) {
+	return l.c15StartKey(idp, signed, split, c15SigKey)
+}
+
+func (l *Lab) c15StartKey(idp *IdP, signed bool, split bool, sigKey string) (*c15Inst, error) {
 	b := MustBackend("")
 	cfg := &GWConfig{Tls: "disable", Auth: []string{"openid"}, IdP: idp, Hosts: []string{b.Addr()}, HostSelection: "roundrobin",
 		PAASigningKey: StrP(Key32a), EnableUserToken: true, UserEncKey: StrP(c15EncKey), UsernameTemplate: "u={{ username }};t={{ token }}", SplitUserDomain: split}
 	if signed {
-		cfg.UserSigningKey = StrP(c15SigKey)
+		cfg.UserSigningKey = StrP(sigKey)
 	}
 	g, err := l.StartGateway(cfg)
 	if err != nil {
@@ -63,7 +67,7 @@ func (i *c15Inst) tokeninfo(method, query string) (*HResp, error) {
 
 func CheckC15(l *Lab, verifDir string) int {
 	rep := NewReport("C15", l.Tier, l.Seed, "exploration", verifDir)
-	rep.Rule = "GET /tokeninfo on real gateway processes in both key modes (encrypt-only, sign-and-encrypt): tokens minted through the real /connect flow with a {{ token }} user-name template for a range of user names (must give 200 with sub == user and must not reveal the name in any decoded segment); every single-character substitution of each of the five JWE segments (sampled positions in quick) judged by the lab's own RFC 7516 dir/A128CBC-HS256 implementation: a mutant whose decoded header, IV, ciphertext or tag bytes change must give 403; tokens forged under other keys, algorithms, issuers, expiry (-1h, -180s, +1h; a -50s token looked up before and again after its leeway ran out), plain signed JWTs, arbitrary strings; cross-mode tokens between an encrypt-only and a sign-and-encrypt instance sharing the encryption key; missing/empty parameter => 400, non-GET => 405, no claim text in refusals. non-trivial = request answered by the gateway; distinct = mode x class x mutation x status"
+	rep.Rule = "GET /tokeninfo on real gateway processes in both key modes (encrypt-only, sign-and-encrypt): tokens minted through the real /connect flow with a {{ token }} user-name template for a range of user names (must give 200 with sub == user and must not reveal the name in any decoded segment); every single-character substitution of each of the five JWE segments (sampled positions in quick) judged by the lab's own RFC 7516 dir/A128CBC-HS256 implementation: a mutant whose decoded header, IV, ciphertext or tag bytes change must give 403; tokens forged under other keys, algorithms, issuers, expiry (-1h, -180s, +1h; a -50s token looked up before and again after its leeway ran out), plain signed JWTs, arbitrary strings; cross-mode tokens between an encrypt-only and a sign-and-encrypt instance sharing the encryption key; instances with 33- and 64-character signing keys (minted and own signed tokens 200, encrypt-only and other-key tokens 403); missing/empty parameter => 400, non-GET => 405, no claim text in refusals. non-trivial = request answered by the gateway; distinct = mode x class x mutation x status"
 	idp, err := NewIdP()
 	if err != nil {
 		rep.Inconclusive(err.Error())
@@ -211,6 +215,57 @@ func CheckC15(l *Lab, verifDir string) int {
 				}
 			}
 		}
+	}
+	// signing keys of other lengths than 32 characters are configured keys like any other: the
+	// instance signs with them and an encrypt-only token is not one of its tokens
+	for ki, sk := range []string{"thisisasessionkeyreplacethisjetzt", strings.Repeat("0123456789abcdef", 4)} {
+		in, err := l.c15StartKey(idp, true, false, sk)
+		if err != nil {
+			rep.Inconclusive("start with a " + fmt.Sprint(len(sk)) + " character signing key: " + err.Error())
+			continue
+		}
+		mode := fmt.Sprintf("sign-and-encrypt/%d-character-signing-key", len(sk))
+		now := time.Now().Unix()
+		tok, merr := in.mint("keylen-user")
+		cases := []struct {
+			name string
+			tok  string
+			want int
+		}{
+			{"minted", tok, 200},
+			{"own implementation, signed under the configured key", c15Forge(true, "rdpgw", "keylen-user", now+3600, nil, []byte(sk)), 200},
+			{"encrypt-only token under the encryption key", c15Forge(false, "rdpgw", "keylen-user", now+3600, nil, nil), 403},
+			{"inner JWS under the first 32 characters of the key", c15Forge(true, "rdpgw", "keylen-user", now+3600, nil, []byte(sk[:32])), 403},
+			{"inner JWS under the 32-character key of the other instance", c15Forge(true, "rdpgw", "keylen-user", now+3600, nil, []byte(c15SigKey)), 403},
+		}
+		for ci, c := range cases {
+			if ci == 0 && merr != nil {
+				rep.Inconclusive("mint: " + merr.Error())
+				continue
+			}
+			r, err := in.tokeninfo("GET", "?access_token="+url.QueryEscape(c.tok))
+			if err != nil {
+				rep.Inconclusive("tokeninfo: " + err.Error())
+				continue
+			}
+			rep.Eval(HashStr(mode, c.name, r.Status))
+			rep.Count("status/"+fmt.Sprint(r.Status), 1)
+			if r.Status != c.want {
+				key := "C15/token-not-under-configured-keys-accepted"
+				if c.want == 200 {
+					key = "C15/own-token-refused"
+				}
+				rep.Violate(key+"/keylen/"+fmt.Sprint(ki), fmt.Sprintf("%s, %s: status %d, want %d", mode, c.name, r.Status, c.want), map[string]any{"mode": mode, "case": c.name, "body": trunc(string(r.Body), 200)})
+			}
+		}
+		if merr == nil {
+			if _, pt, derr := DecryptJWE(tok, []byte(c15EncKey)); derr != nil {
+				rep.Violate("C15/minted-token-not-under-configured-key/keylen", "minted token does not decrypt under the configured encryption key: "+derr.Error(), nil)
+			} else if v := JudgeCookie(string(pt), []byte(sk)); !v.WellFormed || !v.MACOK {
+				rep.Violate("C15/minted-token-not-under-configured-key/keylen", fmt.Sprintf("%s: the minted token's content is not a JWS under the configured signing key (%s)", mode, v.Why), nil)
+			}
+		}
+		in.close()
 	}
 	// mutants of a minted token
 	alphabet := "ABCDEFGHIJKLMNOPQRSTUVWXYZabcdefghijklmnopqrstuvwxyz0123456789-_"
